@@ -32,6 +32,12 @@ def digest_outputs(stage, outs, exc):
                                            else str(v[2]).encode()
                                            ).hexdigest() + str(v[:2])
                          for k, v in hd.items()}
+        elif key == 'config_obsm':
+            hd = pw.h5_digest(val['query_path'], skip=())
+            d['query_obsm'] = {k: hashlib.sha256(
+                v[2] if isinstance(v[2], bytes) else str(v[2]).encode()
+            ).hexdigest() + str(v[:2]) for k, v in hd.items()
+                if k.startswith('obsm')}
         elif key == 'returned':
             def plain(o):
                 if isinstance(o, dict):
